@@ -24,8 +24,8 @@ os.environ.setdefault("PYTHONHASHSEED", "0")
 from harness import catalog, findings, pool, tlc  # noqa: E402
 from harness.show import brief  # noqa: E402
 
-ROUND_TRACES = 6000     # traces executed and validated per round
-ROUND_TASKS = 96        # generation / replay tasks executed and validated per round (bounds the memory of the thorough tier)
+ROUND_TRACES = 20000    # weight executed and validated per round: a model vector counts 1, a driver trace 3
+ROUND_TASKS = 400       # generation / replay tasks executed and validated per round (bounds the memory of the thorough tier)
 GLOBAL_OWNER = {"wellformed": "C03", "poison": "C12", "frame": "C17", "options": "C14"}
 STD_KEYS = ("act", "prop", "args", "out", "res", "digests", "targets", "after", "opts", "ms", "kept", "note")
 
@@ -172,7 +172,8 @@ def check(pid: str, tier: str, seed: int, replay_path: str = None) -> int:
         # a round holds at most ROUND_TASKS tasks and about ROUND_TRACES traces (tasks carry up to 200 traces each)
         groups, cur, load = [], [], 0
         for tk in tasks:
-            n = tk[4] if tk[0] == "driver" else len(tk[2])
+            # traces of the drivers carry about three times the events of a replayed model vector
+            n = tk[4] * 3 if tk[0] == "driver" else len(tk[2])
             if cur and (len(cur) >= ROUND_TASKS or load + n > ROUND_TRACES):
                 groups.append(cur)
                 cur, load = [], 0
